@@ -120,30 +120,31 @@ func c03Rand(tier string) int {
 	if tier == "thorough" {
 		return 500000 / c03PerCase
 	}
-	return 20000 / c03PerCase
+	return 60000 / c03PerCase
 }
 
 func c03Mut(tier string) int {
 	if tier == "thorough" {
 		return 200000 / c03PerCase
 	}
-	return 10000 / c03PerCase
+	return 30000 / c03PerCase
 }
 
 func init() {
 	nAdv := len(c03Adversarial())
 	fw.Register(&fw.Prop{
-		ID:      "C03",
-		CaseCPU: 20,
-		Title:   "Decoding never crashes: any input yields a document or an error",
-		Cases:   func(tier string, seed uint64) int { return nAdv + c03Rand(tier) + c03Mut(tier) },
-		Run:     c03Run,
-		Extra:   c03Fuzz,
-		Rule: "each input decoded under all 4 combinations of AllowMultiLine x AllowInvalidIndents with recover() and classification; process-fatal crashes and hangs attributed by the supervisor. Inputs: enumerated structure-aware adversarial list (first line at level 1..12, role tags before/outside/after families, records nested in records, malformed xrefs, level overflow, BOM variants, 1 MB line, 100k blank lines, 3000-deep nesting), random GEDCOM-biased byte strings (50 per case), truncated/byte-mutated generated files (50 per case). " +
+		ID:       "C03",
+		CaseCPU:  20,
+		Title:    "Decoding never crashes: any input yields a document or an error",
+		NeedsCLI: true,
+		Cases:    func(tier string, seed uint64) int { return nAdv + c03Rand(tier) + c03Mut(tier) },
+		Run:      c03Run,
+		Extra:    c03Fuzz,
+		Rule: "each input decoded under all 4 combinations of AllowMultiLine x AllowInvalidIndents with recover() and classification; process-fatal crashes and hangs attributed by the supervisor. Inputs: enumerated structure-aware adversarial list (first line at level 1..12, role tags before/outside/after families, records nested in records, malformed xrefs, level overflow, BOM variants, 1 MB line, 100k blank lines, 3000-deep nesting), random GEDCOM-biased byte strings (50 per case), truncated/byte-mutated generated files (50 per case). Every adversarial input and every 25th other input also goes through the decoder options of the real CLI ('gedcom diff -allow-multi-line -allow-invalid-indents', the file against itself) under all 4 flag combinations; the outcome class (decoded / error naming the line / documented panic) must be the one the library gives with the same options. " +
 			"non-trivial = input has a line with a leading digit (reaches the line parser); distinct by hash of bytes+options",
 		Floors: func(a *fw.Agg, tier string) []string {
 			var f []string
-			for _, k := range []string{"decodes", "accepted", "rejected-with-line-error", "documented-indent-panic"} {
+			for _, k := range []string{"decodes", "accepted", "rejected-with-line-error", "documented-indent-panic", "cli-decodes", "cli-accepted", "cli-rejected-with-line-error", "cli-documented-indent-panic"} {
 				if a.Counters[k] < 20 {
 					f = append(f, fmt.Sprintf("%s=%d < 20", k, a.Counters[k]))
 				}
@@ -189,6 +190,79 @@ func c03One(c *fw.Ctx, data []byte, kind string) {
 	}
 }
 
+var c03CLISeq int
+
+// c03CLI drives the decoder through the options of the real binary: the diff
+// command is the one that exposes -allow-multi-line and -allow-invalid-indents.
+// Only the decoding stage is judged here (what the command does with an
+// accepted file is C14's subject): the process must reach the same outcome
+// class as the library under the same options.
+func c03CLI(c *fw.Ctx, data []byte, kind string) {
+	bin := os.Getenv("VERIF_GEDCOM_BIN")
+	if bin == "" || len(data) > 1<<16 {
+		return
+	}
+	dir := os.Getenv("VERIF_SCRATCH")
+	if dir == "" {
+		dir = os.TempDir()
+	}
+	c03CLISeq++
+	pfx := filepath.Join(dir, fmt.Sprintf("c03-%d-%d", os.Getpid(), c03CLISeq))
+	if err := os.WriteFile(pfx+".ged", data, 0o644); err != nil {
+		c.HarnessError(err.Error())
+		return
+	}
+	defer os.Remove(pfx + ".ged")
+	defer os.Remove(pfx + ".html")
+	for _, o := range c02Opts {
+		doc, lerr, lpi := c02Decode(data, o)
+		want := "accepted"
+		switch {
+		case lpi != nil && strings.HasPrefix(lpi.Msg, "indent is too large") && !o.ii:
+			want = "documented-indent-panic"
+		case lpi != nil:
+			continue // the library itself violates the property here; reported by c03One
+		case lerr != nil:
+			want = "rejected-with-line-error"
+		case doc == nil:
+			continue
+		}
+		args := []string{"diff", "-left-gedcom", pfx + ".ged", "-right-gedcom", pfx + ".ged", "-output", pfx + ".html", "-jobs", "1"}
+		if o.ml {
+			args = append(args, "-allow-multi-line")
+		}
+		if o.ii {
+			args = append(args, "-allow-invalid-indents")
+		}
+		cmd := exec.Command("/bin/sh", "-c", "ulimit -t 20; exec \"$0\" \"$@\"", bin)
+		cmd.Args = append(cmd.Args, args...)
+		outB, err := cmd.CombinedOutput()
+		out := string(outB)
+		c.Count("cli-decodes", 1)
+		got := "accepted"
+		switch {
+		case CrashedGo(out, err) && strings.Contains(out, "indent is too large"):
+			got = "documented-indent-panic"
+		case CrashedGo(out, err) && strings.Contains(out, "(*Decoder).Decode"):
+			got = "decoder-crash"
+		case CrashedGo(out, err):
+			c.Count("cli-crash-after-decoding (C14's subject)", 1)
+			continue
+		case err != nil && c03CLILineErr.MatchString(out):
+			got = "rejected-with-line-error"
+		case err != nil:
+			got = "failed-otherwise"
+		}
+		c.Count("cli-"+got, 1)
+		if got != want {
+			c.Violation("cli:"+want+"-expected:"+got, fmt.Sprintf("[%s] the library gives %q for this input and these options, 'gedcom diff' with the same options gives %q\noutput: %s\ninput (%d bytes): %q", o, want, got, clip(out, 600), len(data), clip(string(data), 300)),
+				map[string]interface{}{"bytes": clip(string(data), 4000), "AllowMultiLine": o.ml, "AllowInvalidIndents": o.ii, "kind": kind, "cli_args": args})
+		}
+	}
+}
+
+var c03CLILineErr = regexp.MustCompile(`line \d+: `)
+
 func b2i(b bool) int {
 	if b {
 		return 1
@@ -217,13 +291,18 @@ func c03Run(c *fw.Ctx, i int) {
 	adv := c03Adversarial()
 	if i < len(adv) {
 		c03One(c, adv[i], "adversarial")
+		c03CLI(c, adv[i], "adversarial")
 		return
 	}
 	i -= len(adv)
 	r := c.R
 	if i < c03Rand(c.Tier) {
 		for k := 0; k < c03PerCase; k++ {
-			c03One(c, c03RandomBytes(r), "random-bytes")
+			data := c03RandomBytes(r)
+			c03One(c, data, "random-bytes")
+			if k%25 == 0 {
+				c03CLI(c, data, "random-bytes")
+			}
 		}
 		return
 	}
@@ -237,6 +316,9 @@ func c03Run(c *fw.Ctx, i int) {
 			data = gen.Mutate(r, data)
 		}
 		c03One(c, data, "mutated-file")
+		if k%25 == 0 {
+			c03CLI(c, data, "mutated-file")
+		}
 	}
 }
 
